@@ -341,7 +341,7 @@ def case_meta(c, xz, sd, res, verbose=False):
     for f in flags:
         argv += ["--suffix=.foo"] if f == "-S" else [f]
     rj = json.dumps(c)
-    desc = f"{kind} mode {mode:04o} xz {' '.join(argv)} {'(target exists)' if exist else ''}"
+    desc = f"{kind} mode {mode:04o} xz {' '.join(argv)} {'(target exists)' if exist else ''}" + (f" umask {c['umask']:04o}" if "umask" in c else "")
 
     def fail(key, text):
         res.fails.append((key, f"{desc}: {text}", rj))
@@ -371,7 +371,8 @@ def case_meta(c, xz, sd, res, verbose=False):
         proc = False
     if kind == "dir" and to_stdout and exist:
         cls = "either"
-    rc, out, err = run_xz(xz, argv + ["--", name], sd, feed_fifo=os.path.join(sd, name) if kind == "fifo" and to_stdout else None, feed=content)
+    kwu = {"umask": c["umask"]} if "umask" in c else {}	# the creation mask of the xz process: the target's final mode must not depend on it
+    rc, out, err = run_xz(xz, argv + ["--", name], sd, feed_fifo=os.path.join(sd, name) if kind == "fifo" and to_stdout else None, feed=content, **kwu)
     after = snapshot(sd)
     res.add("evals"); res.add("cli_meta_runs")
     res.obs.add(f"{kind}/special={special:o}/{'stdout' if to_stdout else 'file'}/f={int(force)}k={int(keep)}exist={int(exist)}: " + ("processed" if proc else "skip-" + cls))
@@ -684,6 +685,11 @@ def grid_meta(tier):
         for dec in (False, True):
             for fl in ([], ["-k"], ["-f"], ["-k", "-f"]):
                 cases.append({"t": "meta", "kind": "regular", "mode": m, "flags": fl, "exist": False, "dec": dec, "zt": True})
+    # B1b the same under other file creation masks (xz creates the target 0600 & ~umask and then copies the mode)
+    for um in (0o000, 0o200, 0o600, 0o277, 0o777):
+        for m in ([0o600, 0o644, 0o400, 0o000, 0o777, 0o640, 0o200, 0o060] if tier == "quick" else range(0o1000)):
+            for dec in (False, True):
+                cases.append({"t": "meta", "kind": "regular", "mode": m, "flags": [], "exist": False, "dec": dec, "umask": um})
     # B2 kind x flag product x pre-existing target
     if tier == "quick":
         kmodes = {"regular": [0o644, 0o600, 0o4755, 0o2711, 0o1666], "symlink": [0o644, 0o4755], "hardlink": [0o644, 0o2755],
